@@ -21,7 +21,9 @@ func NewTimedTransaction(ctx context.Context, timeout time.Duration, finally Fin
 	t := &TimedTransaction{
 		TransactionBase: NewTransactionBase(finally),
 	}
-	t.timer = time.AfterFunc(timeout, func() { t.Fail(ErrTimeout) })
+	// The timer which has just fired does not need to be stopped (and t.timer
+	// may not be assigned yet if the timeout is very short).
+	t.timer = time.AfterFunc(timeout, func() { t.TransactionBase.Fail(ErrTimeout) })
 	go func() {
 		select {
 		case <-ctx.Done():
